@@ -192,8 +192,8 @@ class Reservoir(Filter[Iterable[Any], Sequence[Any]]):
 
                 try:
                     for r1,r2,r3 in batched_randoms_forever(20):
-                        W = W*r1**x
-                        S = floor(log(r2,1-W))
+                        W = W*(r1 or 2**-30)**x #a uniform can be exactly 0
+                        S = floor(log(r2 or 2**-30,1-W))
                         reservoir[int(r3*count)] = next(islice(items,S,S+1))
                 except StopIteration:
                     pass
